@@ -293,3 +293,33 @@ def collected_elements(b, ty_pred):
             if any(d[2]['rv']['place']['l'] == src for d in ds):
                 out.append((y, y.args[1], c))
     return out
+
+
+def variant_flags(b, field):
+    """Boolean locals that cache a `match`/`matches!` on `<something>.field`:
+    {local: {True: labels under which it is set true, False: labels under which it is set false}}.
+    A label is a variant name; a store counts for the variants of the switch edge(s) that dominate it."""
+    out = {}
+    sws = [sw for sw in b.switches if sw.kind == 'variant' and sw.on.fields() and sw.on.fields()[-1] == '.' + field]
+    if not sws:
+        return out
+    for l in range(len(b.locals)):
+        if b.locals[l]['ty'] != 'bool':
+            continue
+        stores = b.const_stores(l)
+        if len(stores) < 2 or len(stores) != len([d for d in b.defs.get(l, []) if d[1] == 'call' or not d[2]['lhs']['p']]):
+            continue
+        m = {True: set(), False: set()}
+        ok = True
+        for (bb, si, val) in stores:
+            labs = set()
+            for sw in sws:
+                for (lab, tgt) in sw.edges:
+                    if b.edges_dominate([(sw.bb, tgt)], bb):
+                        labs |= set(lab) if isinstance(lab, frozenset) else {lab}
+            if not labs:
+                ok = False
+            m[bool(val)] |= labs
+        if ok and m[True] and m[False] and not (m[True] & m[False]):
+            out[l] = m
+    return out
